@@ -65,6 +65,7 @@ type FuncContract struct {
 	Ensures   []*Clause
 	Modifies  []ModTarget
 	HasMod    bool
+	FrameTrusted string // non-empty: reason why the declared frame is not checked
 	Pure      bool // modifies nothing
 	Loops     map[int]*LoopSpec
 	Sites     []*SiteSpec
@@ -134,7 +135,7 @@ var clauseKeywords = map[string]bool{
 	"props": true, "requires": true, "ensures": true, "modifies": true, "loop": true, "at": true,
 	"panics_if": true, "safety": true, "inline": true, "noinline": true, "assume": true,
 	"lockeffect": true, "rlockeffect": true, "ghostset": true, "pure": true, "havoc": true, "fresh": true,
-	"nobalance": true, "trustcall": true, "trusted": true, "guards": true, "invariant": true,
+	"nobalance": true, "trustcall": true, "trusted": true, "guards": true, "invariant": true, "trustframe": true,
 }
 var declKeywords = map[string]bool{"func": true, "stub": true, "pred": true, "ghost": true, "monitor": true}
 
@@ -149,6 +150,7 @@ type MonitorDecl struct {
 	Props    []string
 	Guards   []string // field names of T
 	Inv      []*Clause
+	Assumes  []*Clause // assumed at acquisition only (label = reason), never proved
 	Pos      string
 }
 
@@ -319,6 +321,14 @@ func (cs *ContractSet) parseDecl(src contractSource, d *rawDecl) error {
 					return fmt.Errorf("%s: monitor %s: %v", c.pos, md.Key, err)
 				}
 				md.Inv = append(md.Inv, cl)
+			case "assume":
+				cl, err := parseLabeled(c.text, c.pos)
+				if err != nil {
+					return fmt.Errorf("%s: monitor %s: %v", c.pos, md.Key, err)
+				}
+				_, reason := splitReason(c.text)
+				cl.Label = reason
+				md.Assumes = append(md.Assumes, cl)
 			default:
 				return fmt.Errorf("%s: monitor %s: unknown clause %q", c.pos, md.Key, c.kw)
 			}
@@ -416,6 +426,12 @@ func (cs *ContractSet) parseClause(fc *FuncContract, c rawClause) error {
 		_, reason := splitReason(c.text)
 		cl.Label = reason
 		fc.Assumes = append(fc.Assumes, cl)
+	case "trustframe":
+		// the declared frame is assumed, not proved (listed in the evidence)
+		_, fc.FrameTrusted = splitReason("x " + c.text)
+		if fc.FrameTrusted == "" {
+			fc.FrameTrusted = "no reason given"
+		}
 	case "pure":
 		fc.Pure = true
 		fc.HasMod = true
